@@ -229,6 +229,26 @@ var c25Progs = [][]byte{
 		0x04,             // INC B
 		0xc3, 0xff, 0xfd, // JP FDFF
 	}}),
+	// P11 video with other tile data and scroll than P9: the whole background is tile 0, whose first row differs
+	// between the two programs, and SCY = 1 puts that row on the last line of this program's picture (and on the
+	// first line of P9's), so whatever a renderer remembers from its last tile row meets the other instance's first
+	machine.Program(map[uint16][]byte{0x100: {
+		0xaf,       // XOR A
+		0xe0, 0x40, // LDH (40),A   LCD off
+		0x21, 0x00, 0x80, // LD HL,8000
+		0x3e, 0xff, // LD A,FF
+		0x22,       // LD (HL+),A   tile 0 row 0 = FF 00
+		0xaf,       // XOR A
+		0x22,       // LD (HL+),A
+		0x3e, 0x01, // LD A,01
+		0xe0, 0x42, // LDH (42),A   SCY = 1
+		0x3e, 0xe4, // LD A,E4
+		0xe0, 0x47, // LDH (47),A   BGP
+		0x3e, 0x91, // LD A,91
+		0xe0, 0x40, // LDH (40),A   LCD on
+		0x04,       // INC B
+		0x18, 0xfd, // JR -3
+	}}),
 }
 
 type c25Case struct {
@@ -508,7 +528,7 @@ func init() {
 				}
 			}
 			// the same at frame-sized steps (2 instances x 2 frames); P10 needs a frame to reach the LCD-on loop
-			for _, mc := range []struct{ ps, cfg []int }{{[]int{10, 0}, []int{0, 1}}, {[]int{10, 10}, []int{0, 3}}, {[]int{9, 10}, []int{2, 0}}, {[]int{10, 9}, nil}} {
+			for _, mc := range []struct{ ps, cfg []int }{{[]int{10, 0}, []int{0, 1}}, {[]int{10, 10}, []int{0, 3}}, {[]int{9, 10}, []int{2, 0}}, {[]int{10, 9}, nil}, {[]int{9, 11}, nil}, {[]int{11, 9}, nil}, {[]int{11, 10}, nil}} {
 				for cr := 0; cr < 3; cr++ {
 					ok := true
 					interleavings(2, 2, func(s []int) bool {
@@ -547,7 +567,7 @@ func init() {
 		}
 		explore.Product(c.R, "interleavings", explore.PartOpt{Workers: 1, Guard: true,
 			Bound:  fmt.Sprintf("all interleavings of shapes %v (instances x steps), units %v cycles + frame steps 2x3, 3x2; 3 creation orders", shapes, units),
-			Domain: "instances built with and without the debug options (CPU trace, debug LCD geometry) side by side; 11 guest programs (execution across echo RAM into object memory with the LCD on; ALU/CB/branches; stores/stack/CALL; timer interrupt + HALT; cartridge RAM writer on MBC1 with 4 banks; cartridge RAM read-before-write on MBC1 with 1 bank, on MBC2 and on MBC5; two sound programs that power-cycle the APU and run different channel-1 sweeps; video + OAM DMA + serial + joypad select)"},
+			Domain: "instances built with and without the debug options (CPU trace, debug LCD geometry) side by side; 12 guest programs (a second video program with other tile data and scroll; execution across echo RAM into object memory with the LCD on; ALU/CB/branches; stores/stack/CALL; timer interrupt + HALT; cartridge RAM writer on MBC1 with 4 banks; cartridge RAM read-before-write on MBC1 with 1 bank, on MBC2 and on MBC5; two sound programs that power-cycle the APU and run different channel-1 sweeps; video + OAM DMA + serial + joypad select)"},
 			gen, func() *c25Env { return &c25Env{solo: map[string][]uint64{}, out: capture} }, c25Check)
 		os.Stdout = oldStdout
 		c25RacePass(c)
